@@ -208,7 +208,7 @@ def replace_docstring(source: str, docstr: str, insert_indents=False):
                 first_stmt.value, ast.Str):     # Has docstring
 
             src_front = source[:prev_token.startpos]
-            src_back = source[first_stmt.first_token.endpos:]
+            src_back = source[first_stmt.last_token.endpos:]
             return src_front + docstr + src_back
 
         else:   # No docstring
@@ -222,11 +222,11 @@ def replace_docstring(source: str, docstr: str, insert_indents=False):
                 first_stmt.value, ast.Str):     # Has docstring
 
             src_front = source[:first_stmt.first_token.startpos]
-            src_back = source[first_stmt.first_token.endpos:]
+            src_back = source[first_stmt.last_token.endpos:]
 
         else:   # No docstring
             src_front = source[:first_stmt.first_token.startpos]
-            src_back = source[first_stmt.first_token.startpos:]
+            src_back = "; " + source[first_stmt.first_token.startpos:]
 
         return src_front + docstr + src_back
 
